@@ -2,6 +2,7 @@
 from lib import pipeline
 
 LEVEL = "proof"
+RELEASE_TOO = True
 MODEL_FILES = ["Spec/Graph6Spec.v", "Model/Graph6M.v", "Model/DotM.v"]
 THEOREMS = []
 STREAMS = [("C18g6", 500, 15000), ("C18dot", 2500, 100000)]
